@@ -491,13 +491,16 @@ static MacroArg *find_arg(MacroArg *args, Token *tok) {
 }
 
 // Concatenates all tokens in `tok` and returns a new string.
-static char *join_tokens(Token *tok, Token *end) {
+// If `escape` is set, a \ is inserted before each " and \ of a string
+// literal or character constant and nowhere else, as the # operator
+// wants it. [https://www.sigbus.info/n1570#6.10.3.2p2]
+static char *join_tokens(Token *tok, Token *end, bool escape) {
   // Compute the length of the resulting token.
   int len = 1;
   for (Token *t = tok; t != end && t->kind != TK_EOF; t = t->next) {
     if (t != tok && (t->has_space || t->at_bol))
       len++;
-    len += t->len;
+    len += escape ? t->len * 2 : t->len;
   }
 
   char *buf = calloc(1, len);
@@ -507,8 +510,15 @@ static char *join_tokens(Token *tok, Token *end) {
   for (Token *t = tok; t != end && t->kind != TK_EOF; t = t->next) {
     if (t != tok && (t->has_space || t->at_bol))
       buf[pos++] = ' ';
-    strncpy(buf + pos, t->loc, t->len);
-    pos += t->len;
+
+    // A character constant is a TK_NUM token that ends with a quote.
+    bool is_literal = t->kind == TK_STR || t->loc[t->len - 1] == '\'';
+
+    for (int i = 0; i < t->len; i++) {
+      if (escape && is_literal && (t->loc[i] == '\\' || t->loc[i] == '"'))
+        buf[pos++] = '\\';
+      buf[pos++] = t->loc[i];
+    }
   }
   buf[pos] = '\0';
   return buf;
@@ -520,8 +530,8 @@ static Token *stringize(Token *hash, Token *arg) {
   // Create a new string token. We need to set some value to its
   // source location for error reporting function, so we use a macro
   // name token as a template.
-  char *s = join_tokens(arg, NULL);
-  return new_str_token(s, hash);
+  char *s = join_tokens(arg, NULL, true);
+  return tokenize_at(hash, format("\"%s\"", s));
 }
 
 // Concatenate two tokens to create a new token.
@@ -809,7 +819,7 @@ static char *read_include_filename(Token **rest, Token *tok, bool *is_dquote) {
 
     *is_dquote = false;
     *rest = skip_line(tok->next);
-    return join_tokens(start->next, tok);
+    return join_tokens(start->next, tok, false);
   }
 
   // Pattern 3: #include FOO
